@@ -87,7 +87,12 @@ func init() {
 					p = gen.Tiny
 				}
 				p.RememberMode = 1
-				s = genForestScenario(c.Rng, tag, cfgs, fGenOpts{Profile: p, Rounds: 2 + c.Rng.Intn(3), Undo: true, ForceEmptyRootOverwrite: c.Index%4 == 0})
+				// a third of the scenarios re-apply undone blocks from their own records ("re-applying the
+				// same ... blocks"), and hand every call the one record per block without defensive
+				// copies, the way a caller relying on C17 does (added after seeded change C06g)
+				share := c.Index%3 == 1
+				s = genForestScenario(c.Rng, tag, cfgs, fGenOpts{Profile: p, Rounds: 2 + c.Rng.Intn(3), Undo: true, ForceEmptyRootOverwrite: c.Index%4 == 0, Redo: share})
+				s.Share = share
 				if c.Index%8 == 5 {
 					s.LeafMode = "readd"
 				}
@@ -215,7 +220,7 @@ func c06Check(c *core.Ctx, s fScenario) {
 		if st.Op.Kind == "block" && len(st.Op.Block.Dels) > 0 {
 			sawDel = true
 		}
-		if st.Op.Kind == "block" && st.LastRec != nil {
+		if (st.Op.Kind == "block" || st.Op.Kind == "redo") && st.LastRec != nil {
 			for _, h := range st.LastRec.AddHashes {
 				ever[h] = true
 			}
